@@ -24,6 +24,7 @@ type G struct {
 	pending interface{} // object of the pending visible operation (for sleep sets)
 	daemon  bool
 	held    int // number of mutexes held (for the C08 "no lock held inside transport" lemma)
+	awaiting bool // inside h.Await: if nothing can run any more, the awaited event cannot happen within the bounds (path is dropped like a false assumption)
 }
 
 type Chan struct {
@@ -121,6 +122,12 @@ func (e *Exec) deadlock() {
 		e.finishPath(pathEnd{"ok", ""})
 		return
 	}
+	if main.awaiting {
+		// the harness waits for an event of the system under test that the bounds (scripted
+		// outcomes, environment events) do not produce on this path: not a deadlock of the code
+		e.finishPath(pathEnd{"assume", "awaited event cannot happen within the bounds"})
+		return
+	}
 	// main blocked forever
 	var desc []string
 	for _, g := range s.gs {
@@ -153,7 +160,7 @@ func (e *Exec) deadlock() {
 func (e *Exec) pickNext(g *G) *G {
 	s := e.sch
 	var cands []*G
-	selfEnabled := g != nil && !g.done && g.enabled()
+	selfEnabled := g != nil && !g.done && !g.env && g.enabled()
 	if selfEnabled {
 		cands = append(cands, g)
 	}
@@ -637,6 +644,7 @@ type timerState struct {
 	g     *G
 	fn    *Closure // AfterFunc
 	elem  types.Type
+	periodic bool // time.Ticker: stays armed after a tick
 }
 
 func (e *Exec) newTimer(elem types.Type, fn *Closure) *timerState {
@@ -650,7 +658,9 @@ func (e *Exec) newTimer(elem types.Type, fn *Closure) *timerState {
 		for {
 			// each wake-up of this pseudo-goroutine is one fire event
 			if t.armed {
-				t.armed = false
+				if !t.periodic {
+					t.armed = false
+				}
 				e.slog("timer fires")
 				if t.fn != nil {
 					f := t.fn
